@@ -99,6 +99,7 @@ def r_conv(ctx):
         if f is None:
             continue
         bad = []
+        chunked = []
         for nd, c, callee, q in ctx.calls()[f.fq]:
             if q == 'builtins.int' and len(c.args) == 1 and isinstance(c.args[0], ast.Name) and c.args[0].id == 'number':
                 bad.append((nd.lineno, 'int(number) on the whole decimal string (CPython refuses more than 4300 digits)'))
@@ -110,8 +111,17 @@ def r_conv(ctx):
                      any(x == ('v', 'number', 'P') or (x[0] == 'call' and x[1][0] == 'attr' and x[1][2] == 'join') for x in walk_term(a_)))
                 if multi:
                     bad.append((nd.lineno, 'int(%s) on a whole digit string (CPython refuses more than 4300 digits)' % show(a_)[:40]))
+                elif any(x[0] == 'sub' and x[2][0] == 'slice' and x[1] == ('v', 'number', 'P') for x in walk_term(a_)):
+                    chunked.append((nd.lineno, show(a_)[:50]))
             if q and q.startswith('numpy.'):
                 bad.append((nd.lineno, 'fixed-width numpy arithmetic (%s)' % q))
+        if not bad and chunked:
+            # several decimal digits per step: exact only if every carry / zero run between the chunks is handled; that is the
+            # arithmetic of C15 (not decidable here), so the converters that rest on this helper are not decided either
+            run.undecided('R-CONV', f, 'digit-serial', chunked[0][0],
+                          '%s consumes its operand in multi-digit chunks (int(%s)): its exactness is arithmetic this analysis does not '
+                          'decide' % (name, chunked[0][1]))
+            continue
         run.check(not bad, 'R-CONV', f, 'digit-serial', bad[0][0] if bad else f.node.lineno, 'works digit by digit',
                   '%s no longer works digit by digit: %s' % (name, bad[0][1] if bad else ''),
                   inputs='numbers of more than 4300 decimal digits (a 14.3 kbit payload)', nontrivial=False)
@@ -121,6 +131,14 @@ def r_conv(ctx):
         for nd, c, callee, q in ctx.calls()[f.fq]:
             if q and q.startswith('numpy.') and q not in ('numpy.array', 'numpy.asarray'):
                 bad.append((nd.lineno, 'fixed-width numpy arithmetic %s (int64 wraps silently)' % q))
+        for nd, c, callee, q in ctx.calls()[f.fq]:
+            if q == 'builtins.int' and len(c.args) == 1 and name in ('number_to_bit', 'number_to_dna'):
+                a_ = f.term(c.args[0], nd)
+                if a_ == ('v', 'decimal_number', 'P') and not any(
+                        a2[0] == 'cmp' and a2[1] in ('==', 'is') and p2 and ('g', 'builtins.int') in (a2[2], a2[3])
+                        for a2, p2 in ctx.conds(f, nd)):
+                    bad.append((nd.lineno, 'int(decimal_number) parses the whole decimal string at once (CPython refuses more than 4300 '
+                                           'digits: a 14.3 kbit payload), where the string form was processed digit by digit'))
         seen = set()
         for nd, s in ctx.all_subterms(f):
             if s in seen:
@@ -1008,7 +1026,11 @@ def r_pair(ctx):
                    '(index 0 is falsy) is deleted while the accessor keeps that arc', inputs='a vertex whose last remaining arc goes to vertex 0')
         okk = None
     if okk is not None:
-      _tri(run, okk, not key_del, 'R-PAIR', f, 'emptied-key-deleted', key_del[0][0].lineno if key_del else f.node.lineno,
+      # "no clean-up at all" is only a witness when no other deletion (through an alias, a pop) could be that clean-up
+      other_dels = [nd_ for nd_, t_ in dels if (nd_, t_) not in key_del and (nd_, t_) not in arc_del] + \
+          [nd_ for nd_ in f.nodes for d_ in nd_.defs if d_.kind == 'mutate' and isinstance(d_.extra, ast.Attribute) and
+           d_.extra.attr in ('pop', 'popitem', 'clear')]
+      _tri(run, okk, not key_del and not other_dels, 'R-PAIR', f, 'emptied-key-deleted', key_del[0][0].lineno if key_del else f.node.lineno,
               'latter_map[u] is deleted when it becomes empty',
               'a vertex whose last arc was removed keeps an empty entry in the latter map (accessor_to_latter_map would not '
               'list it): the views diverge', inputs='removing the last arc of a vertex')
@@ -1072,6 +1094,13 @@ def r_pair(ctx):
                                'scores are added with one fancy-indexed `+=` over the position list %s: numpy applies a repeated '
                                'position once, so an arc that takes part in several pairs receives only one of its contributions'
                                % show(col_[2])[:30], inputs='vertices with three or four successors')
+                elif isinstance(nd.stmt, ast.AugAssign) and col_[0] == 'sub' and \
+                        any(is_call(x, 'itertools.combinations', 'itertools.permutations', 'itertools.product',
+                                    'itertools.combinations_with_replacement') for x in walk_term(col_[2])):
+                    run.refute('R-PAIR', g, 'scores-accumulated-per-arc', nd.lineno,
+                               'scores are added with one fancy-indexed `+=` whose positions %s come from the members of all pairs: every '
+                               'arc occurs in several pairs, numpy applies a repeated position once, so an arc receives only one of '
+                               'its contributions' % show(col_)[:50], inputs='vertices with three or four successors')
     for flag, nm in ((ins, 'has_insertion'), (dele, 'has_deletion')):
         used = any(any(x == flag for x in walk_term(g.term(n_.ast, n_))) for n_ in g.nodes if n_.kind in ('test', 'while') and n_.ast is not None)
         if gated[flag] == 0 and used:
